@@ -1084,7 +1084,7 @@ RULE_MAP = {
     "C03.R2": {"C03": "C03.R2"},
     "C03.R3": {"C03": "C03.R3"},
     "C03.R4": {"C03": "C03.R4"},
-    "C05.R2": {"C05": "C05.R2"},
+    "C05.R2": {"C05": "C05.R2", "C06": "C06.R8"},
     "C07.R2": {"C07": "C07.R2", "C03": "C03.R7"},
     "C11.R3": {"C11": "C11.R3"},
     "C11.R4": {"C11": "C11.R4"},
@@ -1104,6 +1104,7 @@ RULE_TEXT = {
     "C03.R7": "typestate: a stream that answers by itself (400/404) also ends itself (StreamClosed), otherwise its owner never learns the request is over",
     "C03.R8": "typestate: no exception escapes handle() or app_send(None) (reading attributes that were never assigned, calling a missing collaborator)",
     "C05.R2": "typestate: application exit - 500 + EndBody + StreamClosed when no head was sent; never EndBody after a started, unfinished response; StreamClosed exactly once",
+    "C06.R8": "typestate: an application that ends without completing its response always makes the stream emit StreamClosed (exactly once), which is what makes HTTP/1 close instead of waiting on / recycling an unfinished message",
     "C05.R5": "typestate: a rejected application message leaves no emission and no state change (otherwise the later application exit takes the wrong arm)",
     "C05.R6": "typestate: nothing escapes app_send(None) / handle()",
     "C07.R2": "typestate: stream-generated final responses (400/404 with connection: close) also emit StreamClosed, so the protocol closes / re-arms the idle timer",
